@@ -196,20 +196,21 @@ def execute(doc):
         rec.fault('torn_load')
       rec.event(step, kind, outcome)
     elif kind == 'quantize':
-      calib = None
+      calib, res = None, None
       try:
         if q.need_calibration:
           calib = q.calibrate(data)
           rec.probe('calibrated')
         pristine = copy.deepcopy(calib)
         res = q.quantize(copy.deepcopy(calib))
+      except Exception as e:  # pylint: disable=broad-except
+        rec.event(step, 'quantize', 'raised:' + harness.exc_class(e))
+      if res is not None:
         last = {'result': res, 'calib': pristine,
                 'export': jdigest(res.recipe), 'grid': grid_digest(q, probes),
                 'bytes': core.sha(res.quantized_model)}
         rec.event(step, 'quantize', 'ok', last['bytes'])
         rec.probe('quantized')
-      except Exception as e:  # pylint: disable=broad-except
-        rec.event(step, 'quantize', 'raised:' + harness.exc_class(e))
     elif kind == 'checkpoint':
       name = op['name']
       rpath = os.path.join(sdir, name + '_recipe.json')
